@@ -1,6 +1,7 @@
 // h_threadpool -- C19: a ThreadPool handles each client's Messages once, in order, one at a time.
 // One case = one pool lifetime: a pool of 1..6 threads, 1..10 IThreadPoolClient objects, 1..4 submitter threads,
-// 0..2 (un)registrar threads, handlers that sometimes submit further Messages or dawdle, one delay placement
+// 0..2 (un)registrar threads (woken by the submitters' progress or by a running / returning handler of the client they are
+// about to unregister), handlers that sometimes submit further Messages or dawdle, one delay placement
 // (hookrt delay bounding) chosen round-robin over the case index, pool destroyed with or without outstanding work.
 // Submission order is defined by a per-client ticket taken under a harness lock held ACROSS SendMessageToThreadPool.
 // Handlers log enter/exit(client, ticket, pool thread) on the hookrt logical clock into per-pool-thread logs (no lock
@@ -94,9 +95,10 @@ struct Cl : public IThreadPoolClient {
    int id;
    std::mutex mu; int state; uint32_t nextTicket;                    // under mu
    std::atomic<uint32_t> handled; std::atomic<int> inHandler; std::atomic<int> unregDone;
+   std::atomic<uint32_t> pokeAt; std::atomic<int> pokeEarly; bool poked;   // the handler of ticket pokeAt wakes the registrar (poked: under CaseCtx::pmu)
    std::vector<UnregRec> unregs;                                     // touched by the one thread that (un)registers this client
    bool everUnregistered;
-   Cl(ThreadPool * tp, int i) : IThreadPoolClient(tp), id(i), state(tp ? ST_OPEN : ST_UNREG), nextTicket(0), handled(0), inHandler(0), unregDone(0), everUnregistered(false) {}
+   Cl(ThreadPool * tp, int i) : IThreadPoolClient(tp), id(i), state(tp ? ST_OPEN : ST_UNREG), nextTicket(0), handled(0), inHandler(0), unregDone(0), pokeAt(~(uint32_t)0), pokeEarly(0), poked(false), everUnregistered(false) {}
 
    virtual void MessageReceivedFromThreadPool(const MessageRef & msg, uint32 /*numLeft*/)
    {
@@ -115,6 +117,8 @@ struct Cl : public IThreadPoolClient {
       int mx = C.maxActive.load(); while (act > mx && !C.maxActive.compare_exchange_weak(mx, act)) {}
       if (act > (int)C.psz) Fail("too_many_concurrent_handlers", vh::fmt("%d handlers running at once in a pool of %u threads", act, C.psz));
       if (unregDone.load()) Fail("handler_after_unregister", vh::fmt("client %d: handler for ticket %d runs after SetThreadPool(NULL) returned", id, mt));
+      const bool poke = (pokeAt.load() == (uint32_t)mt);
+      if (poke && pokeEarly.load()) Poke(C);
       switch (a) {
       case A_YIELD: sched_yield(); break;
       case A_SPIN: SpinMicros(1 + (x & 31)); C.dawdles++; break;
@@ -135,7 +139,9 @@ struct Cl : public IThreadPoolClient {
       C.active.fetch_sub(1);
       if (own) inHandler.store(0);
       if (slot >= 0) { Ev e; e.seq = hookrt::next_seq(); e.client = id; e.ticket = (uint32_t)mt; e.thr = (int16_t)slot; e.exit = 1; g_logs[slot].push_back(e); }
+      if (poke && !pokeEarly.load()) Poke(C);     // the registrar's SetThreadPool(NULL) now races with this handler's return and the hand-back
    }
+   void Poke(CaseCtx & C) { std::lock_guard<std::mutex> g(C.pmu); poked = true; C.pcv.notify_all(); }
 };
 
 // Takes the client's ticket under its lock, held across SendMessageToThreadPool: the ticket order IS the submission order.
@@ -193,7 +199,9 @@ static void DoUnregister(CaseCtx & C, Cl * c, const char * who)
    c->unregs.push_back(u); c->everUnregistered = true;
    if (u.handledAtReturn != u.acceptedAtReturn || stillIn)
       Fail("unregister_returned_early", vh::fmt("client %d: SetThreadPool(NULL) returned with handled=%u of accepted=%u (accepted when it was called: %u)%s", c->id, u.handledAtReturn, u.acceptedAtReturn, accBefore, stillIn ? ", a handler of the client is still running" : ""));
-   vh::stat("unregistrations"); if (accBefore > u.handledAtReturn - (u.acceptedAtReturn - accBefore) + 0 && false) {}
+   vh::stat("unregistrations");
+   if (u.acceptedAtReturn > accBefore) vh::stat("unregistrations_extended_by_handler_submissions");
+   (void)C;
 }
 static void DoRegister(CaseCtx & C, Cl * c)
 {
@@ -206,17 +214,21 @@ static void DoRegister(CaseCtx & C, Cl * c)
    else { fprintf(stderr, "HARNESS-ABORT: RegisterClient failed\n"); abort(); }
 }
 
-struct Toggle { int client; long threshold; };
+struct Toggle { int client; long threshold; int poke; /* 0 none, 1 early, 2 late */ int pokeDelta; };
 static void RegistrarThread(CaseCtx * Cp, std::vector<Toggle> script, uint64_t seed)
 {
    CaseCtx & C = *Cp;
    hookrt::set_role(R_UNREG); hookrt::t_rng = (uint32_t)(seed >> 9) | 1u;
    for (size_t i = 0; i < script.size(); i++) {
-      {  // untimed wait for the submitters' progress (or their end)
-         std::unique_lock<std::mutex> g(C.pmu);
-         while (C.progress < script[i].threshold && C.subsRunning > 0) C.pcv.wait(g);
-      }
       Cl * c = C.cls[script[i].client];
+      {  // untimed wait for the submitters' progress (or their end); in poke mode a handler of the client may end the wait earlier
+         std::unique_lock<std::mutex> g(C.pmu);
+         c->poked = false;
+         if (script[i].poke) { c->pokeEarly.store(script[i].poke == 1); c->pokeAt.store(c->handled.load() + (uint32_t)script[i].pokeDelta); }
+         while (C.progress < script[i].threshold && C.subsRunning > 0 && !c->poked) C.pcv.wait(g);
+         c->pokeAt.store(~(uint32_t)0);
+         if (c->poked) vh::stat(script[i].poke == 1 ? "toggles_poked_by_running_handler" : "toggles_poked_by_returning_handler");
+      }
       int st; { std::lock_guard<std::mutex> g(c->mu); st = c->state; }
       if (st == ST_OPEN) DoUnregister(C, c, "registrar"); else if (st == ST_UNREG) DoRegister(C, c);
    }
@@ -245,7 +257,7 @@ static void RunCase(long k, uint64_t cs)
    C.psz = r.range(1, 6);
    const uint32_t nc = r.chance(1, 5) ? r.range(1, 2) : r.range(1, 10);
    const uint32_t nsub = r.range(1, 4);
-   const uint32_t total = r.chance(1, 8) ? r.range(4, 40) : r.range(40, 700);
+   const uint32_t total = r.chance(1, 8) ? r.range(4, 40) : (r.chance(1, 6) ? r.range(400, 900) : r.range(40, 400));
    const uint32_t nreg = r.R(3);                    // 0..2 registrar threads
    const int endMode = r.R(4);                      // 0,1: unregister everything then destroy; 2: destroy with outstanding work; 3: unregister some, then destroy
    // ---- delay placement (delay bounding): round-robin over the case index
@@ -276,13 +288,13 @@ static void RunCase(long k, uint64_t cs)
    if (C.pool->GetMaxThreadCount() != C.psz) Fail("docex", "GetMaxThreadCount() differs from the constructor argument");
    uint32_t lateClients = 0;
    for (uint32_t i = 0; i < nc; i++) { const bool late = (nreg > 0) && r.chance(1, 6); if (late) lateClients++; C.cls.push_back(new Cl(late ? NULL : C.pool, (int)i)); }
-   // registrar scripts: disjoint client sets, 1..3 toggles per client at increasing thresholds
+   // registrar scripts: disjoint client sets, 1..8 toggles per client at increasing thresholds
    std::vector<std::vector<Toggle> > scripts(nreg);
    if (nreg) for (uint32_t i = 0; i < nc; i++) {
       const bool late = (C.cls[i]->state == ST_UNREG);
       if (!late && !r.chance(1, 2)) continue;
-      const uint32_t w = r.R(nreg); const uint32_t nt = r.range(1, 3); long th = (long)r.R(total + total / 8 + 1);
-      for (uint32_t t = 0; t < nt; t++) { Toggle tg; tg.client = (int)i; tg.threshold = th; scripts[w].push_back(tg); th += (long)r.R(total / 3 + 2); }
+      const uint32_t w = r.R(nreg); const uint32_t nt = r.chance(1, 3) ? r.range(4, 8) : r.range(1, 3); long th = (long)r.R(total + total / 8 + 1);
+      for (uint32_t t = 0; t < nt; t++) { Toggle tg; tg.client = (int)i; tg.threshold = th; tg.poke = r.chance(1, 2) ? (int)r.range(1, 2) : 0; tg.pokeDelta = (int)r.R(6); scripts[w].push_back(tg); th += (long)r.R(nt > 3 ? total / 8 + 2 : total / 3 + 2); }
    }
    for (uint32_t w = 0; w < nreg; w++) std::stable_sort(scripts[w].begin(), scripts[w].end(), [](const Toggle & a, const Toggle & b) { return a.threshold < b.threshold; });
 
